@@ -53,8 +53,10 @@ SPECS["C11"] = {
     "units": [
         {"name": "plain", "pkg": "charset", "harnesses": ["HC11Plain"], "quick_args": fix(maxlen=5), "thorough_args": fix(maxlen=6),
          "quick_shards": 48, "thorough_shards": 64},
+        {"name": "sequence", "pkg": "charset", "harnesses": ["HC11Seq"], "quick_args": fix(maxlen=2), "thorough_args": fix(maxlen=3),
+         "quick_shards": 32, "thorough_shards": 64},
     ],
-    "must_reach": ["end", "assert:utf8-only-if-valid", "assert:utf8-always-when-valid", "assert:cp1252-needs-c1-byte", "assert:latin1-excludes-c1-byte"],
+    "must_reach": ["assert:seq-utf8-always-when-valid", "assert:seq-repeat-same-answer", "end", "assert:utf8-only-if-valid", "assert:utf8-always-when-valid", "assert:cp1252-needs-c1-byte", "assert:latin1-excludes-c1-byte"],
     "bounds": {"quick": {"length": "1..5, all byte values except binary-data bytes"}, "thorough": {"length": "1..6"}},
     "outside": ["strings longer than the bound", "charset sniffing applied to the three text leaves is the tree-level claim shared with C02"],
     "assumptions": [],
@@ -119,8 +121,9 @@ SPECS["C10"] = {
         {"name": "balance", "pkg": "json", "harnesses": ["HC10Balance"], "quick_args": fix(maxlen=6), "thorough_args": fix(maxlen=9), "quick_shards": 16, "thorough_shards": 48},
         {"name": "verdict", "pkg": "mimetype", "harnesses": ["HC10Verdict"], "quick_args": fix(siblings=1), "quick_shards": 32, "thorough_shards": 64},
         {"name": "history", "pkg": "json", "harnesses": ["HC04History"], "quick_args": fix(maxlen=3), "thorough_args": fix(maxlen=4), "quick_shards": 32, "thorough_shards": 64},
+        {"name": "reuse", "pkg": "mimetype", "harnesses": ["HC04Reuse"], "args": ["-max-instr", "20000000"], "quick_shards": 32, "thorough_shards": 64},
     ],
-    "must_reach": ["assert:history-same-query-verdict", "assert:subtype-verdict-whole", "assert:subtype-verdict-cut-after-deciding-member", "end", "assert:array-balanced", "assert:object-balanced"],
+    "must_reach": ["assert:reused-buffer-same-answer-as-fresh-copy", "assert:history-same-query-verdict", "assert:subtype-verdict-whole", "assert:subtype-verdict-cut-after-deciding-member", "end", "assert:array-balanced", "assert:object-balanced"],
     "bounds": {"quick": {"balance": "input <= 6 bytes over {[ ] { } \" : , 1 a space}, stack height 0..2"}, "thorough": {"balance": "<= 9 bytes"}},
     "outside": ["inputs longer than the bound"],
     "assumptions": [],
@@ -146,8 +149,9 @@ SPECS["C14"] = {
                    "older siblings, and immutability of earlier results, for every verdict vector (hence every input).",
     "units": [
         {"name": "extend", "pkg": "mimetype", "harnesses": ["HC14Extend"], "quick_args": fix(tier=0), "thorough_args": fix(tier=1), "quick_shards": 32, "thorough_shards": 64},
+        {"name": "onresult", "pkg": "mimetype", "harnesses": ["HC14OnResult"], "quick_shards": 8, "thorough_shards": 8},
     ],
-    "must_reach": ["end", "assert:lookup-alias-is-first-in-walk-order", "assert:lookup-agrees-with-walk-order", "assert:rejected-by-all-extensions-implies-unchanged", "assert:matching-extension-wins-over-older-siblings", "assert:earlier-result-unaffected"],
+    "must_reach": ["assert:onresult:rejected-implies-unchanged", "assert:extension-is-a-new-node", "assert:lookup-before-extend", "end", "assert:lookup-alias-is-first-in-walk-order", "assert:lookup-agrees-with-walk-order", "assert:rejected-by-all-extensions-implies-unchanged", "assert:matching-extension-wins-over-older-siblings", "assert:earlier-result-unaffected"],
     "bounds": {"quick": {"extends": "1 or 2 Extend calls at {root (package level and method), text, zip, json, ole, html, docx, geojson, the first extension, the first extension's parent}; 0..2 aliases"},
                "thorough": {"extends": "as quick, plus 1 Extend at every one of the 179 nodes"}},
     "outside": ["more than two Extend calls", "extension detectors that are not pure"],
@@ -162,8 +166,9 @@ SPECS["C05"] = {
         {"name": "reader", "pkg": "mimetype", "harnesses": ["HC05Reader"], "quick_args": fix(maxlen=4), "thorough_args": fix(maxlen=6), "quick_shards": 32, "thorough_shards": 64},
         {"name": "file", "pkg": "mimetype", "harnesses": ["HC05File"], "quick_args": fix(maxlen=3), "thorough_args": fix(maxlen=5), "quick_shards": 16, "thorough_shards": 32},
         {"name": "sequence", "pkg": "mimetype", "harnesses": ["HC05Seq"], "quick_args": fix(maxlen=2), "thorough_args": fix(maxlen=3), "quick_shards": 32, "thorough_shards": 64},
+        {"name": "big", "pkg": "mimetype", "harnesses": ["HC05Big"], "args": ["-max-instr", "20000000"], "quick_shards": 32, "thorough_shards": 64},
     ],
-    "must_reach": ["assert:second-detection-consumes-at-most-limit", "end", "assert:same-header-bytes", "assert:error-is-surfaced", "assert:reader-consumes-at-most-limit", "assert:open-error-yields-errMIME", "assert:file-closed"],
+    "must_reach": ["assert:big-same-header-bytes", "assert:big-reader-consumes-at-most-limit", "assert:second-detection-consumes-at-most-limit", "end", "assert:same-header-bytes", "assert:error-is-surfaced", "assert:reader-consumes-at-most-limit", "assert:open-error-yields-errMIME", "assert:file-closed"],
     "bounds": {"quick": {"data": "<= 4 bytes (symbolic), all chunk compositions, EOF with/without data, error at every offset with/without data, limits {0,1..6,3072}"},
                "thorough": {"data": "<= 6 bytes, limits {0,1..8,3072}"}},
     "outside": ["readers that violate the io.Reader contract", "real file-system behaviour (os.Open/Read/Close are contract stubs)", "limits outside the enumerated set"],
@@ -183,8 +188,9 @@ SPECS["C04"] = {
         {"name": "slicing", "pkg": "mimetype", "harnesses": ["HC05Reader"], "quick_args": fix(maxlen=3), "thorough_args": fix(maxlen=4), "quick_shards": 16, "thorough_shards": 32},
         {"name": "sequence", "pkg": "mimetype", "harnesses": ["HC05Seq"], "quick_args": fix(maxlen=2), "thorough_args": fix(maxlen=3), "quick_shards": 32, "thorough_shards": 64},
         {"name": "history", "pkg": "json", "harnesses": ["HC04History"], "quick_args": fix(maxlen=4), "thorough_args": fix(maxlen=5), "quick_shards": 32, "thorough_shards": 64},
+        {"name": "reuse", "pkg": "mimetype", "harnesses": ["HC04Reuse"], "args": ["-max-instr", "20000000"], "quick_shards": 32, "thorough_shards": 64},
     ],
-    "must_reach": ["assert:history-same-query-verdict", "assert:second-detection-same-header-bytes", "end", "assert:same-parsed", "assert:same-query-satisfied", "assert:same-verdict-with-recycled-reader", "assert:caller-buffer-not-written", "assert:detect-slices-to-limit"],
+    "must_reach": ["assert:reused-buffer-same-answer-as-fresh-copy", "assert:history-same-query-verdict", "assert:second-detection-same-header-bytes", "end", "assert:same-parsed", "assert:same-query-satisfied", "assert:same-verdict-with-recycled-reader", "assert:caller-buffer-not-written", "assert:detect-slices-to-limit"],
     "bounds": {"quick": {"jsonpool": "raw <= 4 bytes, 4 query kinds, recycled state: symbolic ib/firstToken/querySatisfied/failed, path stack height 0..3 (cap 4) with symbolic keys",
                          "csvpool": "raw <= 4 bytes, both delimiters, 4 dirtying recipes with symbolic junk", "watch": "Detect on <= 2 symbolic bytes plus 2 symbolic bytes of spare capacity, limits {0,1,2,3072}"},
                "thorough": {"jsonpool": "<= 6 bytes", "csvpool": "<= 6 bytes", "watch": "<= 3 bytes"}},
@@ -200,8 +206,9 @@ SPECS["C17"] = {
     "units": [
         {"name": "step", "pkg": "mimetype", "harnesses": ["HC17Step"], "quick_args": fix(tier=0) + ["-frontier-mult", "2"], "thorough_args": fix(tier=1) + ["-frontier-mult", "2"], "fix_each": {"format": 97}, "heavy_values": {22: 16, 53: 8, 41: 3, 44: 3}, "quick_shards": 1, "thorough_shards": 4},
         {"name": "entry", "pkg": "mimetype", "harnesses": ["HC05Reader"], "quick_args": fix(maxlen=3), "thorough_args": fix(maxlen=4), "quick_shards": 16, "thorough_shards": 32},
+        {"name": "big", "pkg": "mimetype", "harnesses": ["HC05Big"], "args": ["-max-instr", "20000000"], "quick_shards": 32, "thorough_shards": 64},
     ],
-    "must_reach": ["end", "same-format-still-matches", "handover", "assert:longer-header-still-binary"],
+    "must_reach": ["assert:big-same-header-bytes", "end", "same-format-still-matches", "handover", "assert:longer-header-still-binary"],
     "bounds": {"quick": {"n": "1..64 and every length within a few bytes of each length guard up to 4194 (list in harness/mimetype/h_c01.go); OLE: reduced list"},
                "thorough": {"n": "every n in 1..4300 (OLE formats: reduced list)"}},
     "outside": ["headers longer than 4300 bytes", "sub-formats below the root children (they only refine a binary parent)", "extensions"],
@@ -229,16 +236,17 @@ SPECS["C13"] = {
                    "positive verdict on arbitrary bytes over a stated alphabet implies the line structure the property demands (reference line splitter in the harness).",
     "units": [
         {"name": "table", "pkg": "magic", "harnesses": ["HC13Table"], "quick_shards": 32, "thorough_shards": 64, "quick_args": ["-max-instr", "20000000"], "thorough_args": ["-max-instr", "20000000"]},
-        {"name": "svconv", "pkg": "magic", "harnesses": ["HC13SvConverse"], "quick_args": fix(maxlen=6), "thorough_args": fix(maxlen=8), "quick_shards": 32, "thorough_shards": 64},
+        {"name": "svconv", "pkg": "magic", "harnesses": ["HC13SvConverse"], "quick_args": fix(maxlen=6, alpha=0), "thorough_args": fix(maxlen=8, alpha=0), "quick_shards": 32, "thorough_shards": 64},
+        {"name": "svconv4", "pkg": "magic", "harnesses": ["HC13SvConverse"], "quick_args": fix(maxlen=9, alpha=1), "thorough_args": fix(maxlen=11, alpha=1), "quick_shards": 48, "thorough_shards": 64},
         {"name": "ndconv", "pkg": "magic", "harnesses": ["HC13NdConverse"], "quick_args": fix(maxlen=5), "thorough_args": fix(maxlen=7), "quick_shards": 32, "thorough_shards": 64},
         {"name": "ndstream", "pkg": "magic", "harnesses": ["HC13NdStream"], "quick_shards": 32, "thorough_shards": 64},
         {"name": "entry", "pkg": "mimetype", "harnesses": ["HC05Reader"], "quick_args": fix(maxlen=3), "thorough_args": fix(maxlen=4), "quick_shards": 16, "thorough_shards": 32},
         {"name": "ragged", "pkg": "magic", "harnesses": ["HC13Ragged"], "quick_shards": 32, "thorough_shards": 64},
     ],
     "must_reach": ["assert:ragged-table-rejected-at-cut", "assert:ragged-table-rejected-file-ends-at-limit", "assert:detect-slices-to-limit", "end", "assert:table-survives-cut", "assert:every-line-has-the-same-field-count", "assert:complete-line-is-a-json-value", "assert:stream-survives-cut"],
-    "bounds": {"quick": {"table": "2..3 rows x 2..3 columns, cells of 1..2 symbolic bytes, LF/CRLF per line, with/without final newline, every limit from end of line 2 to len+1",
-                         "svconv": "<= 6 bytes over {, TAB LF CR # a 1 space}", "ndconv": "<= 5 bytes over {[ ] { } \" : , 1 a space LF CR}", "ndstream": "2..3 lines from 6 value templates with symbolic digits"},
-               "thorough": {"svconv": "<= 8 bytes", "ndconv": "<= 7 bytes"}},
+    "bounds": {"quick": {"table": "2..3 rows x 2..3 columns, cells of 1..2 symbolic bytes or alternating empty / 1-byte cells, LF/CRLF per line, with/without final newline, every limit from end of line 2 to len+1",
+                         "svconv": "<= 6 bytes over {, TAB LF CR # a 1 space}; <= 9 bytes over {delimiter LF a space}", "ndconv": "<= 5 bytes over {[ ] { } \" : , 1 a space LF CR}", "ndstream": "2..3 lines from 6 value templates with symbolic digits"},
+               "thorough": {"svconv": "<= 8 bytes; <= 11 bytes over the 4-letter alphabet", "ndconv": "<= 7 bytes"}},
     "outside": ["quoted fields (LazyQuotes semantics are not re-specified)", "cells longer than 2 bytes", "inputs outside the stated alphabets for the converse"],
     "assumptions": [],
 }
@@ -248,8 +256,9 @@ SPECS["C19"] = {
                    "archive/zip produces it), with symbolic name and body bytes; the oracle is the entry list that was written.",
     "units": [
         {"name": "zip", "pkg": "magic", "harnesses": ["HC19"], "quick_args": fix(tier=0), "thorough_args": fix(tier=1), "quick_shards": 32, "thorough_shards": 64},
+        {"name": "reuse", "pkg": "mimetype", "harnesses": ["HC04Reuse"], "args": ["-max-instr", "20000000"], "quick_shards": 32, "thorough_shards": 64},
     ],
-    "must_reach": ["end", "assert:docx-identified", "assert:xlsx-identified", "assert:pptx-identified", "assert:jar-identified", "assert:odt-identified", "assert:xlsx-implies-marker"],
+    "must_reach": ["assert:reused-buffer-same-answer-as-fresh-copy", "end", "assert:docx-identified", "assert:xlsx-identified", "assert:pptx-identified", "assert:jar-identified", "assert:odt-identified", "assert:xlsx-implies-marker"],
     "bounds": {"quick": {"archives": "first entry from 7 names (with/without data descriptor), OOXML marker as 2nd..6th entry or absent, 0..4 fillers of one of 4 kinds (tiny stored, deflated+descriptor, bookkeeping part, near-miss 'xl'+'/...'), optional trailer; symbolic name/body bytes from a..o; limit 0"},
                "thorough": {"archives": "as quick with an independent filler kind per position"}},
     "outside": ["bodies or names containing a zip signature", "extra fields", "zip64", "archives with more than 7 entries", "APK markers"],
@@ -259,7 +268,7 @@ SPECS["C19"] = {
 SPECS["C12"] = {
     "explanation": "charset.FromHTML through the real x/net/html tokenizer and charset.FromXML through the real encoding/xml RawToken (both executed from source, "
                    "not stubbed) on declaration templates with a symbolic label over the token alphabet [A-Za-z0-9._+-], symbolic whitespace, three letter-case "
-                   "variants of tag/attribute names, five declaration syntaxes and seven prologues; the result must equal the lower-cased label "
+                   "variants of tag/attribute names, five declaration syntaxes and nine prologues (among them a 1100-byte comment and earlier non-declaring meta tags); the result must equal the lower-cased label "
                    "(utf-16 labels map to utf-8, a BOM wins). The markup detectors are checked on the same kind of headers.",
     "units": [
         {"name": "html", "pkg": "magic", "harnesses": ["HC12HTML"], "quick_args": fix(labelLen=1), "thorough_args": fix(labelLen=3), "quick_shards": 48, "thorough_shards": 64},
@@ -270,7 +279,7 @@ SPECS["C12"] = {
         {"name": "xmlutf8", "pkg": "magic", "harnesses": ["HC12XMLUTF8"], "quick_shards": 4, "thorough_shards": 4},
     ],
     "must_reach": ["assert:xml-declared-utf8-honoured", "end", "assert:html-declared-charset-honoured", "assert:bom-wins-over-meta", "assert:utf16-meta-maps-to-utf8", "assert:xml-declared-encoding-honoured", "assert:html-markup-detected"],
-    "bounds": {"quick": {"label": "1 and 2 symbolic bytes (66^k labels)", "templates": "5 syntaxes x 7 prologues x 3 case variants x symbolic whitespace"},
+    "bounds": {"quick": {"label": "1 and 2 symbolic bytes (66^k labels)", "templates": "5 syntaxes x 9 prologues x 3 case variants x symbolic whitespace"},
                "thorough": {"label": "1 and 4 symbolic bytes"}},
     "outside": ["labels longer than the bound or with characters outside [A-Za-z0-9._+-]", "utf-16 prefixed labels other than the five listed", "more than one declaration", "declarations beyond the header"],
     "assumptions": [],
@@ -286,8 +295,9 @@ SPECS["C02"] = {
         {"name": "registered", "pkg": "mimetype", "harnesses": ["HC02Registered"], "quick_shards": 1, "thorough_shards": 1},
         {"name": "walk", "pkg": "mimetype", "harnesses": ["HC03Walk"], "quick_args": fix(tier=0, extends=0), "thorough_args": fix(tier=0, extends=0), "quick_shards": 16, "thorough_shards": 16},
         {"name": "errors", "pkg": "mimetype", "harnesses": ["HC05Reader", "HC05File"], "quick_args": fix(maxlen=2), "thorough_args": fix(maxlen=3), "quick_shards": 16, "thorough_shards": 32},
+        {"name": "onresult", "pkg": "mimetype", "harnesses": ["HC14OnResult"], "quick_shards": 8, "thorough_shards": 8},
     ],
-    "must_reach": ["assert:error-yields-errMIME", "assert:errMIME-is-bare-root", "end", "assert:format:string-parses", "assert:format:registered-type", "assert:format:only-charset-parameter", "assert:registered-type-is-bare-media-type", "assert:parameter-only-on-text-types", "assert:chain-ends-at-octet-stream"],
+    "must_reach": ["assert:onresult:ancestors-carry-no-parameters", "assert:walk:ancestor-bare", "assert:error-yields-errMIME", "assert:errMIME-is-bare-root", "end", "assert:format:string-parses", "assert:format:registered-type", "assert:format:only-charset-parameter", "assert:registered-type-is-bare-media-type", "assert:parameter-only-on-text-types", "assert:chain-ends-at-octet-stream"],
     "bounds": {"quick": {"label": "0 and 1 arbitrary bytes in 5 carriers"}, "thorough": {"label": "0 and 2 arbitrary bytes"}},
     "outside": ["labels longer than the bound", "carriers other than the five templates"],
     "assumptions": [],
